@@ -3,11 +3,11 @@ sys.path.insert(0, os.path.dirname(os.path.abspath(__file__)))
 from common import *
 PROPERTY = 'C14'
 def h(nstart, length=5, limit=None):
-    d = dict(src='c14_tracestate.cc', defines=['NSTART=%d' % nstart, 'LEN=%d' % length], overrides=TS_OVERRIDES,
-             models=TS_MODELS + ['libc.c', 'cxxrt.c', 'stdstring.c', 'single_threaded.c'], gen_models=gen_regex_tables)
+    d = dict(src='c14_tracestate.cc', defines=['NSTART=%d' % nstart, 'LEN=%d' % length], overrides=TS_OVERRIDES + [SP_RELEASE],
+             models=TS_MODELS + ['libc.c', 'cxxrt.c', 'stdstring.c', 'single_threaded.c', SP_LEAK_MODEL], gen_models=gen_regex_tables, model_defines=['VERIF_NEW_ARRAY_MAX=64'], ir2c_flags=['--new-array-max', '64'])
     if limit: d['gen_includes'] = patched_trace_state_limit(limit)
     return d
-US = {'re_match': 10, 'bcmp': 8, 'strlen': 8, 'memcmp': 8}
+US = {'re_match': 10, 'bcmp': 8, 'strlen': 8, 'memcmp': 8, 'verif_mem': 50}
 HARNESSES = {}
 QUERIES = []
 for ns in (0, 1, 2, 3):
@@ -15,22 +15,25 @@ for ns in (0, 1, 2, 3):
     HARNESSES[tag] = h(ns)
     tier = 'quick' if ns == 2 else 'thorough'
     U = 4 * ns + 6
-    for e, sh in (('h_set', 'Set(key,value) with every 1-byte key/value (valid, invalid, present, absent)'), ('h_delete', 'Delete(key) with every 1-byte key'),
+    for e, sh in (('h_set', 'Set(key,value) with 1-byte key/value over an 8-letter alphabet (valid, invalid, separators; present and absent keys)'), ('h_delete', 'Delete(key) with a 1-byte key over the alphabet'),
                   ('h_header_roundtrip', 'ToHeader -> FromHeader')):
         QUERIES.append(dict(name='%s_n%d' % (e[2:], ns), harness=tag, entry=e, unwind=U, unwindset=US, rec_unwind=3, tier=tier, timeout=1200,
+                            optional_reach=['Set of a new key on a full list returns an unchanged copy'],
                             shape='%d distinct valid 1-byte members; %s' % (ns, sh)))
 HARNESSES['c14_lim3'] = h(3, limit=3)
 QUERIES.append(dict(name='set_at_scaled_limit', harness='c14_lim3', entry='h_set', unwind=18, unwindset=US, rec_unwind=3, timeout=1200,
                     shape='list already at the member limit (kMaxKeyValuePairs scaled 32 -> 3 in a scratch copy of trace_state.h); Set of present and absent keys'))
-HARNESSES['c14_any4'] = h(0, 4); HARNESSES['c14_any6'] = h(0, 6)
-QUERIES.append(dict(name='from_any_header_len4', harness='c14_any4', entry='h_from_any_header', unwind=8, unwindset=US, rec_unwind=3, timeout=1200, shape='every header byte string of length <= 4'))
-QUERIES.append(dict(name='tokenizer_len4', harness='c14_any4', entry='h_tokenizer', unwind=8, unwindset=US, timeout=1200, shape='every header byte string of length <= 4'))
-QUERIES.append(dict(name='from_any_header_len6', harness='c14_any6', entry='h_from_any_header', unwind=10, unwindset=US, rec_unwind=3, tier='thorough', timeout=1800, shape='every header byte string of length <= 6'))
-QUERIES.append(dict(name='tokenizer_len6', harness='c14_any6', entry='h_tokenizer', unwind=10, unwindset=US, tier='thorough', timeout=1800, shape='every header byte string of length <= 6'))
+for L in range(0, 8):
+    HARNESSES['c14_any%d' % L] = h(0, L)
+    tier = 'quick' if L in (0, 3, 4) else 'thorough'
+    QUERIES.append(dict(name='from_any_header_len%d' % L, harness='c14_any%d' % L, entry='h_from_any_header', unwind=L + 4, unwindset=US, rec_unwind=3, tier=tier, timeout=1200,
+                        shape='every header byte string of length %d' % L, optional_reach=[] ))
+    QUERIES.append(dict(name='tokenizer_len%d' % L, harness='c14_any%d' % L, entry='h_tokenizer', unwind=L + 4, unwindset=US, tier=tier, timeout=1200,
+                        shape='every header byte string of length %d' % L))
 def extra_engine(args, work):
     return regex_engine(['ts_key', 'ts_value'], args, work)
 BOUNDS = ['list of 0..3 members with 1-byte keys and values', 'member limit logic at the scaled constant 3 (real value asserted to be 32)',
-          'arbitrary headers <= 4 bytes (quick) / 6 bytes (thorough)', 'regex literals vs grammar: every byte string <= 258 bytes']
+          'arbitrary headers of every length 0..7 (quick: 0,3,4), exactly sized buffers', 'regex literals vs grammar: every byte string <= 258 bytes']
 OUTSIDE = ['keys/values longer than one byte in Set/Delete scripts', 'lists longer than 3 members', 'sequences of more than one Set/Delete (each step is checked from an arbitrary valid list of the shape)']
 TRUSTED = ['std::regex_match implements ECMAScript full match for the literal subset (re2smt.py)', 'grammar: key = (lcalpha/DIGIT) 0*255 keychar | tenant@system as documented in trace_state.h']
-ASSUMPTIONS = ['IsValidKeyRegEx/IsValidValueRegEx replaced by tables generated from the real literals']
+ASSUMPTIONS = ['std::shared_ptr release does not run disposers (TraceState objects are leaked; values, not lifetimes, are the subject)', 'operator new[] allocates a fixed 64 bytes (larger requests are reported); overruns inside the slack are not detected', 'IsValidKeyRegEx/IsValidValueRegEx replaced by tables generated from the real literals']
